@@ -782,26 +782,43 @@ def is_K5(lines):
 
 def is_K6(lines):
     """the unforced initial-value Lazy of a mapped / lifted cell whose user function captures (and declares) handles is
-    taken out of the cell (sample_lazy; from there possibly into hold_lazy / accum_lazy / a clone): the function - one
-    Arc shared by the node's update closure and that thunk - and the handles it captures then outlive the node that
-    declares them to the collector"""
+    taken out of the cell - directly (sample_lazy on it) or inside the Lazy of a cell computed from it (a lift / map_c over
+    it, a CellLoop closed onto it, a hold_lazy / accum_lazy seeded with it): the function - one Arc shared by the node's
+    update closure and that thunk - and the handles it captures then outlive the node that declares them to the collector"""
     d, _ = analyze(lines)
-    alias = {}
+    alias, lazy_src, lz_of = {}, {}, {}
     for l in lines:
         w = l.split()
         if w and w[-1].startswith("keep:"):
             w = w[:-1]
         if not w:
             continue
-        if w[0] == "clone" and len(w) > 2:
-            alias[int(w[2])] = alias.get(int(w[1]), int(w[1]))
-        if w[0] == "sample_lazy" and len(w) > 2:
-            c = int(w[2])
-            c = alias.get(c, c)
-            v = d.get(c)
-            if v and v["op"] in ("map_c", "lift") and v.get("keeps"):
-                return True
-    return False
+        try:
+            if w[0] == "clone":
+                alias[int(w[2])] = alias.get(int(w[1]), int(w[1]))
+            elif w[0] == "sample_lazy":
+                c = int(w[2])
+                lazy_src[int(w[1])] = alias.get(c, c)
+            elif w[0] == "clone_lazy" and int(w[1]) in lazy_src:
+                lazy_src[int(w[2])] = lazy_src[int(w[1])]
+            elif w[0] in ("hold_lazy", "accum_lazy", "collect_lazy") and int(w[3]) in lazy_src:
+                lz_of[int(w[1])] = lazy_src[int(w[3])]
+        except (ValueError, IndexError):
+            pass
+
+    def taint(c, seen):
+        if c in seen or c not in d:
+            return False
+        seen.add(c)
+        v = d[c]
+        if v["op"] in ("map_c", "lift") and v.get("keeps"):
+            return True
+        if v["op"] in ("map_c", "map_cmk", "lift", "cloop"):
+            return any(taint(x, seen) for x in v["deps"])
+        if v["op"] in ("hold_lazy", "accum_lazy", "collect_lazy"):
+            return c in lz_of and taint(lz_of[c], seen)
+        return False
+    return any(taint(c, set()) for c in lazy_src.values())
 
 
 def is_K3_leak(lines):
